@@ -34,7 +34,7 @@ def run(prop, tier, rng, only=None):
     if p.returncode != 0:
         sys.stderr.write(p.stdout[-3000:])
         raise vlib.ToolError("jobmt_driver failed")
-    acc, rej, stats, total = vlib.validate_traces("JobMtMon.tla", "JobMtMon.cfg", tp, "val_jobmt", shards=6)
+    acc, rej, stats, total = vlib.validate_traces("JobMtMon.tla", "JobMtMon_%s.cfg" % prop, tp, "val_jobmt", shards=6)
     violations = []
     for r in rej:
         sid = r["script"] or ""
